@@ -322,3 +322,320 @@ Section Req.
         assert (X : existsb (fun r0 => feq f (rf r0)) st = true) by (apply existsb_exists; exists r; split; assumption). congruence.
   Qed.
 End Req.
+
+(* ---------- the requested list ---------- *)
+Lemma has_dup_from_spec : forall l seen, has_dup_from seen l = false ->
+  forall a x b, l = a ++ x :: b -> forall e, In e (seen ++ a) -> feq x e = false.
+Proof.
+  intros l. induction l as [|y t IH]; intros seen H a x b E e He; [destruct a; discriminate|].
+  cbn [has_dup_from] in H. apply orb_false_iff in H. destruct H as [H1 H2]. destruct a as [|a0 a'].
+  - cbn in E. injection E as E1 E2. subst y t. rewrite app_nil_r in He.
+    destruct (feq x e) eqn:F; [|reflexivity]. assert (X : existsb (feq x) seen = true) by (apply existsb_exists; exists e; split; assumption). congruence.
+  - cbn in E. injection E as E1 E2. subst y. apply (IH (seen ++ [a0]) H2 a' x b E2 e). rewrite <- app_assoc. exact He.
+Qed.
+
+Lemma parent_child_some : forall defs st r p, closed1 defs st r -> In p (rparents r) ->
+  (exists c, f_child p = Some c) /\ exists d i, odef_of defs (f_name (rf r)) = Some d /\ In i (od_ins d) /\ input_of defs (rf r) i = inl p /\ f_name p = oi_name i.
+Proof.
+  intros defs st r p (d & Hd & _ & _ & ins & Hperm & Hf2 & _) Hp.
+  destruct (Forall2_In_r _ _ _ _ _ p Hf2 Hp) as [i [Hi Hin]]. pose proof Hin as Hin'. apply input_of_inl in Hin. destruct Hin as [_ E].
+  split; [subst p; eexists; reflexivity|]. exists d, i. split; [exact Hd|]. split; [exact (Permutation_in _ Hperm Hi)|]. split; [exact Hin' | subst p; reflexivity].
+Qed.
+
+Lemma desc_cases : forall defs st f r, (forall r0, In r0 st -> closed1 defs st r0) -> desc st f r ->
+  rf r = f \/ exists c, f_child (rf r) = Some c.
+Proof.
+  intros defs st f r Hcl H. destruct H as [f r Hr E|f r p r' H Hp Hr' E]; [left; exact E|]. right.
+  rewrite E. exact (proj1 (parent_child_some defs st r p (Hcl r (desc_In _ _ _ H)) Hp)).
+Qed.
+
+Lemma desc_inst : forall defs st rq f r, (forall r0, In r0 st -> closed1 defs st r0) -> In f rq -> desc st f r -> inst defs rq (rf r).
+Proof.
+  intros defs st rq f r Hcl Hf H. induction H as [f r Hr E|f r p r' H IH Hp Hr' E]; [rewrite E; apply inst_req; exact Hf|].
+  destruct (parent_child_some defs st r p (Hcl r (desc_In _ _ _ H)) Hp) as (_ & d & i & Hd & Hi & Hin & _).
+  rewrite E. exact (inst_in defs rq (rf r) d i p (IH Hf) Hd Hi Hin).
+Qed.
+
+Section Collect.
+  Variables (iord : nat -> list oin -> list oin) (defs : list odef).
+  Hypothesis Hiord : iord_ok iord.
+  Hypothesis Hdecl : forall d i, In d defs -> In i (od_ins d) -> ogoodb (oi_opt i) = true.
+
+  Definition cstep (acc : list rnode + nat) (f : feat) : list rnode + nat :=
+    match acc with inl s => process (S (List.length defs)) iord defs s f true | inr e => inr e end.
+  Definition clist (acc : list rnode + nat) (fs : list feat) : list rnode + nat := fold_left cstep fs acc.
+
+  Lemma clist_inr : forall fs e, clist (inr e) fs = inr e.
+  Proof. intros fs e. induction fs as [|f t IH]; [reflexivity | exact IH]. Qed.
+
+  Record CInv (done : list feat) (st : list rnode) : Prop := {
+    ci_nodes : forall r, In r st -> fgood (rf r) /\ closed1 defs st r /\ exists f, In f done /\ desc st f r;
+    ci_nodup : nodup_feq (map rf st);
+    ci_req : forall f, In f done -> exists r, In r st /\ rf r = f /\ rreq r = true;
+    ci_flag : forall r, In r st -> rreq r = true -> In (rf r) done;
+    ci_kind : forall r, In r st -> In (rf r) done \/ exists c, f_child (rf r) = Some c
+  }.
+
+  Lemma cinv_nil : CInv [] [].
+  Proof. split; try (intros ? []). constructor. Qed.
+
+  Lemma cinv_step : forall done st f st', CInv done st -> fgood f -> f_child f = None -> (forall e, In e done -> feq f e = false) ->
+    process (S (List.length defs)) iord defs st f true = inl st' -> CInv (done ++ [f]) st'.
+  Proof.
+    intros done st f st' [I1 I2 I3 I4 I5] Hg Hc Hne H.
+    destruct (process_spec iord defs Hiord Hdecl _ st f true st' Hg H) as (ext & E & Hh & Hn & Hf & Hx & Hd). subst st'.
+    assert (Hext : exists r0 rest, ext = r0 :: rest /\ rf r0 = f /\ rreq r0 = true /\ forall r, In r rest -> rreq r = false).
+    { destruct Hf as [Hf|Hf]; [|exact Hf]. exfalso. apply Hx in Hf. apply existsb_exists in Hf. destruct Hf as [r [Hr Hfr]].
+      destruct (I5 r Hr) as [Hin|[c Hcs]]; [rewrite (Hne _ Hin) in Hfr; discriminate|].
+      rewrite (feq_child_mismatch f (rf r) c Hc Hcs) in Hfr. discriminate. }
+    destruct Hext as (r0 & rest & Ee & F0 & Fq & Fr).
+    assert (N1 : forall r, In r (st ++ ext) -> fgood (rf r) /\ closed1 defs (st ++ ext) r /\ exists g, In g (done ++ [f]) /\ desc (st ++ ext) g r).
+    { intros r Hr. apply in_app_iff in Hr. destruct Hr as [Hr|Hr].
+      - destruct (I1 r Hr) as (A & B & g & Hg' & C). split; [exact A|]. split; [apply closed1_mono; exact B|].
+        exists g. split; [apply in_or_app; left; exact Hg' | apply desc_mono; exact C].
+      - destruct (Hn r Hr) as (A & B & C). split; [exact A|]. split; [exact B|]. exists f. split; [apply in_or_app; right; left; reflexivity | exact C]. }
+    split.
+    - exact N1.
+    - exact (Hd I2).
+    - intros g Hgin. apply in_app_iff in Hgin. destruct Hgin as [Hgin|[Eg|[]]].
+      + destruct (I3 g Hgin) as (r & Hr & A & B). exists r. split; [apply in_or_app; left; exact Hr | split; assumption].
+      + subst g. exists r0. split; [apply in_or_app; right; rewrite Ee; left; reflexivity | split; assumption].
+    - intros r Hr Hq. apply in_app_iff in Hr. destruct Hr as [Hr|Hr]; [apply in_or_app; left; exact (I4 r Hr Hq)|].
+      rewrite Ee in Hr. destruct Hr as [Er|Hr]; [subst r; rewrite F0; apply in_or_app; right; left; reflexivity|].
+      rewrite (Fr r Hr) in Hq. discriminate.
+    - intros r Hr. apply in_app_iff in Hr. destruct Hr as [Hr|Hr].
+      + destruct (I5 r Hr) as [A|A]; [left; apply in_or_app; left; exact A | right; exact A].
+      + destruct (Hn r Hr) as (_ & _ & C).
+        destruct (desc_cases defs (st ++ ext) f r (fun r1 H1 => proj1 (proj2 (N1 r1 H1))) C) as [A|A];
+          [left; rewrite A; apply in_or_app; right; left; reflexivity | right; exact A].
+  Qed.
+
+  Lemma clist_spec : forall todo done st stf, CInv done st -> (forall f, In f todo -> fgood f /\ f_child f = None) ->
+    has_dup_from done todo = false -> clist (inl st) todo = inl stf -> CInv (done ++ todo) stf.
+  Proof.
+    intros todo. induction todo as [|f t IH]; intros done st stf HI Hg Hdup H.
+    - cbn in H. injection H as H. subst stf. rewrite app_nil_r. exact HI.
+    - cbn [clist fold_left cstep] in H. fold (clist (process (S (List.length defs)) iord defs st f true) t) in H.
+      destruct (process (S (List.length defs)) iord defs st f true) as [s1|e] eqn:E1; [|rewrite clist_inr in H; discriminate].
+      destruct (Hg f (or_introl eq_refl)) as [Gf Cf].
+      assert (Hne : forall e, In e done -> feq f e = false).
+      { intros e He. apply (has_dup_from_spec (f :: t) done Hdup [] f t eq_refl). rewrite app_nil_r. exact He. }
+      pose proof (cinv_step done st f s1 HI Gf Cf Hne E1) as HI1.
+      cbn [has_dup_from] in Hdup. apply orb_false_iff in Hdup. destruct Hdup as [_ Hdup].
+      pose proof (IH (done ++ [f]) s1 stf HI1 (fun g Hgt => Hg g (or_intror Hgt)) Hdup H) as R.
+      rewrite <- app_assoc in R. exact R.
+  Qed.
+End Collect.
+
+Lemma collect_unfold : forall iord defs rq, collect iord defs rq =
+  if has_dup (map (req_feat defs) rq) then inr 6 else clist iord defs (inl []) (map (req_feat defs) rq).
+Proof. reflexivity. Qed.
+
+Lemma req_feat_good : forall defs r, ogoodb (rq_opt r) = true -> fgood (req_feat defs r) /\ f_child (req_feat defs r) = None.
+Proof. intros defs r H. unfold req_feat, mk_feat, fgood. cbn. repeat split; try reflexivity. exact H. Qed.
+
+(* EVERY accepted request, every iteration order: what the stored features are *)
+Theorem collect_spec : forall iord defs rq st, iord_ok iord -> decl_ok defs rq -> collect iord defs rq = inl st ->
+  let fs := map (req_feat defs) rq in
+  (forall r, In r st -> closed1 defs st r) /\
+  (forall r, In r st -> inst defs fs (rf r)) /\
+  (forall r, In r st -> exists f, In f fs /\ desc st f r) /\
+  nodup_feq (map rf st) /\
+  (forall f, In f fs -> exists r, In r st /\ rf r = f /\ rreq r = true) /\
+  (forall r, In r st -> rreq r = true -> In (rf r) fs) /\
+  (forall r, In r st -> fgood (rf r)).
+Proof.
+  intros iord defs rq st Hiord [Hd1 Hd2] H fs. rewrite collect_unfold in H. fold fs in H.
+  destruct (has_dup fs) eqn:Edup; [discriminate|].
+  assert (Hg : forall f, In f fs -> fgood f /\ f_child f = None).
+  { intros f Hf. unfold fs in Hf. apply in_map_iff in Hf. destruct Hf as [r [E Hr]]. subst f. apply req_feat_good. exact (Hd2 r Hr). }
+  destruct (clist_spec iord defs Hiord Hd1 fs [] [] st (cinv_nil defs) Hg Edup H) as [I1 I2 I3 I4 I5]. cbn [app] in *.
+  assert (Hcl : forall r, In r st -> closed1 defs st r) by (intros r Hr; apply (I1 r Hr)).
+  split; [exact Hcl|]. split; [|split; [|split; [|split; [|split]]]].
+  - intros r Hr. destruct (I1 r Hr) as (_ & _ & f & Hf & Hdesc). exact (desc_inst defs st fs f r Hcl Hf Hdesc).
+  - intros r Hr. apply (I1 r Hr).
+  - exact I2.
+  - exact I3.
+  - exact I4.
+  - intros r Hr. apply (I1 r Hr).
+Qed.
+
+(* ---------- rejections; the recursion depth is never exhausted ---------- *)
+Inductive reachF (defs : list odef) : feat -> feat -> Prop :=
+  | rf_refl : forall f, reachF defs f f
+  | rf_step : forall f d i p g, odef_of defs (f_name f) = Some d -> In i (od_ins d) -> input_of defs f i = inl p ->
+                                reachF defs p g -> reachF defs f g.
+
+Lemma inst_reach : forall defs rq f g, inst defs rq f -> reachF defs f g -> inst defs rq g.
+Proof.
+  intros defs rq f g Hi Hr. induction Hr as [f|f d i p g Hd Hin Hp _ IH]; [exact Hi|].
+  apply IH. exact (inst_in defs rq f d i p Hi Hd Hin Hp).
+Qed.
+
+Section Errors.
+  Variables (iord : nat -> list oin -> list oin) (defs : list odef) (rk : string -> nat).
+  Hypothesis Hiord : iord_ok iord.
+  Hypothesis Hdefd : forall d i, In d defs -> In i (od_ins d) -> exists d', odef_of defs (oi_name i) = Some d'.
+  Hypothesis Hrk : forall d i, In d defs -> In i (od_ins d) -> rk (oi_name i) < rk (od_name d).
+
+  Lemma plist_err : forall n ps s e, plist iord defs n (inl s) ps = inr e ->
+    exists p s', In p ps /\ process n iord defs s' p false = inr e.
+  Proof.
+    intros n ps. induction ps as [|p t IH]; intros s e H; [discriminate|].
+    cbn [plist fold_left pstep] in H. fold (plist iord defs n (process n iord defs s p false) t) in H.
+    destruct (process n iord defs s p false) as [s1|e1] eqn:E1.
+    - destruct (IH s1 e H) as [q [s' [Hq Hp]]]. exists q, s'. split; [right; exact Hq | exact Hp].
+    - rewrite plist_inr in H. injection H as H. subst e1. exists p, s. split; [left; reflexivity | exact E1].
+  Qed.
+
+  Definition failing (f : feat) (e : nat) : Prop :=
+    exists g d i, reachF defs f g /\ odef_of defs (f_name g) = Some d /\ In i (od_ins d) /\ input_of defs g i = inr e.
+
+  Lemma process_err : forall n st f flag e, rk (f_name f) < n -> (exists d, odef_of defs (f_name f) = Some d) ->
+    process n iord defs st f flag = inr e -> failing f e.
+  Proof.
+    intros n. induction n as [|n IHn]; intros st f flag e Hlt [d Hd] H; [lia|].
+    rewrite process_S in H. rewrite Hd in H. destruct (existsb (fun r => feq f (rf r)) st); [discriminate|].
+    destruct (odef_of_In defs _ _ Hd) as [Hdin Hdn].
+    destruct (build_inputs defs (norm_child (f_opt f)) (iord (List.length st) (od_ins d))) as [ps|e0] eqn:Eb.
+    - destruct (plist_err n ps _ e H) as [p [s' [Hp Hpe]]].
+      pose proof (build_inputs_spec _ _ _ _ Eb) as Hb. destruct (Forall2_In_r _ _ _ _ _ p Hb Hp) as [i [Hi Hip]].
+      assert (Hin : In i (od_ins d)) by exact (Permutation_in _ (Hiord _ _) Hi).
+      assert (Hnm : f_name p = oi_name i) by (destruct Hip as [_ E]; subst p; reflexivity).
+      assert (Hlt' : rk (f_name p) < n) by (rewrite Hnm; pose proof (Hrk d i Hdin Hin) as X; rewrite Hdn in X; lia).
+      assert (Hdp : exists d', odef_of defs (f_name p) = Some d') by (rewrite Hnm; exact (Hdefd d i Hdin Hin)).
+      destruct (IHn s' p false e Hlt' Hdp Hpe) as (g & d' & i' & R & A & B & C).
+      exists g, d', i'. split; [|split; [exact A | split; [exact B | exact C]]].
+      apply (rf_step defs f d i p g Hd Hin); [apply input_of_inl; exact Hip | exact R].
+    - injection H as H. subst e0. destruct (build_inputs_err _ _ _ _ Eb) as [i [Hi [Hm Hne]]].
+      exists f, d, i. split; [apply rf_refl|]. split; [exact Hd|]. split; [exact (Permutation_in _ (Hiord _ _) Hi)|].
+      unfold input_of. rewrite Hm. destruct e as [|e']; [congruence | reflexivity].
+  Qed.
+
+  Lemma clist_err : forall fs s e, clist iord defs (inl s) fs = inr e ->
+    exists f s', In f fs /\ process (S (List.length defs)) iord defs s' f true = inr e.
+  Proof.
+    intros fs. induction fs as [|f t IH]; intros s e H; [discriminate|].
+    cbn [clist fold_left cstep] in H. fold (clist iord defs (process (S (List.length defs)) iord defs s f true) t) in H.
+    destruct (process (S (List.length defs)) iord defs s f true) as [s1|e1] eqn:E1.
+    - destruct (IH s1 e H) as [q [s' [Hq Hp]]]. exists q, s'. split; [right; exact Hq | exact Hp].
+    - rewrite clist_inr in H. injection H as H. subst e1. exists f, s. split; [left; reflexivity | exact E1].
+  Qed.
+End Errors.
+
+Lemma input_of_err_values : forall defs f i e, input_of defs f i = inr e -> e = 3 \/ e = 4 \/ e = 5.
+Proof.
+  intros defs f i e H. unfold input_of in H. destruct (merge_class_values (norm_child (f_opt f)) (oi_opt i)) as [E|[E|[E|E]]]; rewrite E in H;
+    [discriminate | injection H as H; left; auto | injection H as H; right; left; auto | injection H as H; right; right; auto].
+Qed.
+
+(* a rejection of the graph stage is the duplicate-request error, or the failing merge (codes 3, 4, 5) of a declared input of an
+   option instance of the request; the recursion depth is never exhausted and no name is undefined (codes 9, 7) *)
+Theorem collect_error_cases : forall iord defs rq e, iord_ok iord -> odefs_ok defs rq -> collect iord defs rq = inr e ->
+  let fs := map (req_feat defs) rq in
+  (e = 6 /\ has_dup fs = true) \/
+  ((e = 3 \/ e = 4 \/ e = 5) /\
+   exists g d i, inst defs fs g /\ odef_of defs (f_name g) = Some d /\ In i (od_ins d) /\ input_of defs g i = inr e).
+Proof.
+  intros iord defs rq e Hiord (Hnd & Hin & Hdefd & Hreq & rk & Hb & Hrk) H fs. rewrite collect_unfold in H. fold fs in H.
+  destruct (has_dup fs) eqn:Edup; [injection H as H; left; split; [symmetry; exact H | reflexivity]|]. right.
+  destruct (clist_err iord defs fs [] e H) as [f [s' [Hf Hp]]].
+  assert (Hfr : exists r, In r rq /\ f = req_feat defs r) by (unfold fs in Hf; apply in_map_iff in Hf; destruct Hf as [r [E Hr]]; exists r; split; [exact Hr | symmetry; exact E]).
+  destruct Hfr as [r [Hr Ef]]. destruct (Hreq r Hr) as [d Hd].
+  assert (Hname : f_name f = rq_name r) by (subst f; reflexivity).
+  assert (Hlt : rk (f_name f) < S (List.length defs)).
+  { rewrite Hname. destruct (odef_of_In defs _ _ Hd) as [Hdi Hdn]. rewrite <- Hdn. pose proof (Hb d Hdi). lia. }
+  assert (Hdd : exists d0, odef_of defs (f_name f) = Some d0) by (rewrite Hname; exists d; exact Hd).
+  destruct (process_err iord defs rk Hiord Hdefd Hrk _ s' f true e Hlt Hdd Hp) as (g & d' & i' & R & A & B & C).
+  split; [exact (input_of_err_values defs g i' e C)|]. exists g, d', i'. split; [|split; [exact A | split; [exact B | exact C]]].
+  exact (inst_reach defs fs f g (inst_req defs fs f Hf) R).
+Qed.
+
+(* ---------- the resulting graph satisfies the hypotheses of the graph-level theorems ---------- *)
+Lemma NoDup_map_via : forall (A : Type) (h : A -> nat) (nm : A -> string) (l : list A),
+  NoDup (map nm l) -> (forall x y, In x l -> In y l -> h x = h y -> nm x = nm y) -> NoDup (map h l).
+Proof.
+  intros A h nm l. induction l as [|x t IH]; intros Hnd Hinj; cbn; [constructor|].
+  cbn in Hnd. apply NoDup_cons_iff in Hnd. destruct Hnd as [Hx Ht]. constructor.
+  - intros Hin. apply in_map_iff in Hin. destruct Hin as [y [E Hy]]. apply Hx. apply in_map_iff. exists y.
+    split; [apply (Hinj y x); [right; exact Hy | left; reflexivity | exact E] | exact Hy].
+  - apply IH; [exact Ht | intros a b Ha Hb; apply Hinj; right; assumption].
+Qed.
+
+Lemma Forall2_names : forall defs f ins ps, Forall2 (fun i p => input_of defs f i = inl p) ins ps -> map f_name ps = map oi_name ins.
+Proof.
+  intros defs f ins ps H. induction H as [|i p li lp Hip _ IH]; [reflexivity|]. cbn. rewrite IH. f_equal.
+  apply input_of_inl in Hip. destruct Hip as [_ E]. subst p. reflexivity.
+Qed.
+
+Section GraphOk.
+  Variables (defs : list odef) (st : list rnode) (rk : string -> nat).
+  Hypothesis Hcl : forall r, In r st -> closed1 defs st r.
+  Hypothesis Hgood : forall r, In r st -> fgood (rf r).
+  Hypothesis Hinnd : forall d, In d defs -> NoDup (map oi_name (od_ins d)).
+  Hypothesis Hrk : forall d i, In d defs -> In i (od_ins d) -> rk (oi_name i) < rk (od_name d).
+
+  Lemma held_idx : forall p, holds st p -> idx_of st p < List.length st /\
+    exists r', nth_error st (idx_of st p) = Some r' /\ feq p (rf r') = true.
+  Proof.
+    intros p [r [Hr Hm]].
+    assert (Hf : feq p (rf r) = true) by (destruct Hm as [E|E]; [rewrite <- E; apply feq_refl; rewrite E; rewrite <- E; apply Hgood; exact Hr | exact E]).
+    pose proof (first_idx_lt _ (fun r0 => feq p (rf r0)) st r Hr Hf) as Hlt. split; [exact Hlt|].
+    pose proof (first_idx_nth _ (fun r0 => feq p (rf r0)) st r Hlt) as Hn. cbv beta in Hn.
+    exists (nth (idx_of st p) st r). split; [apply nth_error_nth'; exact Hlt | exact Hn].
+  Qed.
+
+  Lemma xg_nth : forall k x, nth_error (xgraph_of st) k = Some x -> exists r, nth_error st k = Some r /\ x = xnode_of st r.
+  Proof.
+    intros k x H. unfold xgraph_of in H. rewrite nth_error_map in H. destruct (nth_error st k) as [r|]; [|discriminate].
+    injection H as H. exists r. split; [reflexivity | symmetry; exact H].
+  Qed.
+
+  Lemma xg_parent : forall p c, parent (base (label_graph (xgraph_of st))) p c ->
+    exists r q, nth_error st c = Some r /\ In q (rparents r) /\ p = idx_of st q.
+  Proof.
+    intros p c [n [Hn [Hc Hp]]]. apply base_label_In in Hn. destruct Hn as [k [x [Hk En]]]. subst n. cbn in Hc, Hp. subst k.
+    destruct (xg_nth c x Hk) as [r [Hr Ex]]. subst x. cbn in Hp. apply in_map_iff in Hp. destruct Hp as [q [E Hq]].
+    exists r, q. split; [exact Hr|]. split; [exact Hq | symmetry; exact E].
+  Qed.
+
+  Theorem xgraph_ok : graph_ok (base (label_graph (xgraph_of st))).
+  Proof.
+    set (g := label_graph (xgraph_of st)).
+    assert (Hids : ids (base g) = seq 0 (List.length st)) by (unfold g; rewrite ids_label; unfold xgraph_of; rewrite map_length; reflexivity).
+    split; [rewrite Hids; apply seq_NoDup|]. split; [|split].
+    - intros p c Hpc. destruct (xg_parent p c Hpc) as (r & q & Hr & Hq & Ep). subst p. rewrite Hids. apply in_seq.
+      destruct (Hcl r (nth_error_In _ _ Hr)) as (_ & _ & _ & _ & _ & _ & _ & Hh). destruct (held_idx q (Hh q Hq)) as [Hlt _]. lia.
+    - intros n Hn. apply base_label_In in Hn. destruct Hn as [k [x [Hk En]]]. subst n. cbn [fins].
+      destruct (xg_nth k x Hk) as [r [Hr Ex]]. subst x. cbn [xins xnode_of].
+      pose proof (Hcl r (nth_error_In _ _ Hr)) as (d & Hd & _ & _ & ins & Hperm & Hf2 & Hh).
+      apply (NoDup_map_via _ (idx_of st) f_name).
+      + rewrite (Forall2_names defs (rf r) ins (rparents r) Hf2). apply (Permutation_NoDup (Permutation_sym (Permutation_map oi_name Hperm))).
+        apply Hinnd. exact (proj1 (odef_of_In defs _ _ Hd)).
+      + intros a b Ha Hb E. destruct (held_idx a (Hh a Ha)) as [_ [ra [Na Fa]]]. destruct (held_idx b (Hh b Hb)) as [_ [rb [Nb Fb]]].
+        rewrite E in Na. rewrite Na in Nb. injection Nb as Nb. subst rb. rewrite (feq_name _ _ Fa), (feq_name _ _ Fb). reflexivity.
+    - exists (fun k => match nth_error st k with Some r => rk (f_name (rf r)) | None => 0 end).
+      intros p c Hpc. destruct (xg_parent p c Hpc) as (r & q & Hr & Hq & Ep). subst p. rewrite Hr.
+      pose proof (Hcl r (nth_error_In _ _ Hr)) as Hclr. destruct (parent_child_some defs st r q Hclr Hq) as (_ & d & i & Hd & Hi & _ & Hnm).
+      destruct Hclr as (_ & _ & _ & _ & _ & _ & _ & Hh). destruct (held_idx q (Hh q Hq)) as [_ [r' [Nr Fr]]]. rewrite Nr.
+      rewrite <- (feq_name _ _ Fr), Hnm. destruct (odef_of_In defs _ _ Hd) as [Hdi Hdn]. rewrite <- Hdn. exact (Hrk d i Hdi Hi).
+  Qed.
+
+  Theorem xgraph_strict : one_cfw defs -> strict (base (label_graph (xgraph_of st))).
+  Proof.
+    intros H1 n m Hn Hm. apply base_label_In in Hn, Hm. destruct Hn as [k [x [Hk En]]]. destruct Hm as [j [y [Hj Em]]]. subst n m. cbn [fcfw].
+    destruct (xg_nth k x Hk) as [r [Hr Ex]]. destruct (xg_nth j y Hj) as [s [Hs Ey]]. subst x y. cbn [xcfw xnode_of].
+    destruct (Hcl r (nth_error_In _ _ Hr)) as (d & Hd & _ & Hc & _). destruct (Hcl s (nth_error_In _ _ Hs)) as (e & He & _ & Hc' & _).
+    rewrite Hc, Hc'. apply H1; [exact (proj1 (odef_of_In defs _ _ Hd)) | exact (proj1 (odef_of_In defs _ _ He))].
+  Qed.
+End GraphOk.
+
+(* EVERY accepted request of the fragment yields a finite acyclic one-framework graph: all graph-level theorems apply *)
+Theorem request_graph_ok_O : forall iord defs rq g, iord_ok iord -> decl_ok defs rq -> odefs_ok defs rq -> one_cfw defs ->
+  request_graph_O iord defs rq = inl g -> graph_ok (base g) /\ strict (base g).
+Proof.
+  intros iord defs rq g Hiord Hdecl (Hnd & Hin & Hdefd & Hreq & rk & Hb & Hrk) H1 H.
+  unfold request_graph_O, request_xgraph in H. destruct (collect iord defs rq) as [st|e] eqn:Ec; [|discriminate]. injection H as H. subst g.
+  destruct (collect_spec iord defs rq st Hiord Hdecl Ec) as (Hcl & _ & _ & _ & _ & _ & Hgood).
+  split; [exact (xgraph_ok defs st rk Hcl Hgood Hin Hrk) | exact (xgraph_strict defs st Hcl H1)].
+Qed.
